@@ -179,7 +179,7 @@ Proof. intros s d A. cbn [do_action]. apply PA_AS; [exact A|apply AS_kern|apply 
 Lemma actA_ARwPost : forall s j, Acc s -> PA s (do_action s (ARwPost j)).
 Proof.
   intros s j A. cbn [do_action]. destruct (rw_reg s j); [|apply PA_same; exact A].
-  unfold raw_post. destruct (if efd_raw _ =? 0 then _ else _) as [k1 x].
+  unfold raw_post. destruct (if raw_is_pipe _ _ then _ else _) as [k1 x].
   apply PA_AS; [exact A|apply AS_kern|apply TrExt_kern].
 Qed.
 
@@ -568,10 +568,10 @@ Proof.
   intros s j. unfold raw_unregister. eapply ARes_bind; [apply fd_unregister_ASk|]. cbn beta. intros s1 Q.
   cbv zeta. cbn [ARes].
   set (s2 := do_close s1 (rw_rfd s1 j)).
-  set (s3 := if efd_raw s2 =? 0 then do_close s2 (rw_wfd s2 j) else s2).
+  set (s3 := if raw_is_pipe s2 j then do_close s2 (rw_wfd s2 j) else s2).
   assert (A3 : AW s1 s3).
   { apply (AW_trans _ s2); [apply AS_AW; apply do_close_AS|].
-    unfold s3. destruct (efd_raw s2 =? 0); [apply AS_AW; apply do_close_AS|apply AW_refl]. }
+    unfold s3. destruct (raw_is_pipe s2 j); [apply AS_AW; apply do_close_AS|apply AW_refl]. }
   destruct Q, A3. unfold RAW_KEY in *.
   constructor; cbn [numobjs numfds fdt heap tasks cur ev_count use_raw rw_reg set_rw]; try congruence.
   - intros i. rewrite aw_reg0. apply ak_reg.
